@@ -2214,3 +2214,122 @@ R("remove-account-zero-coin-local", ["C17"],
 		zero := own.Currency.NewCoinFromInt(0)
 		_ = nak.balances.SetBalance(account.Address, zero)
 	}"""))
+
+# ------------------------------------------------------------------ rules from the second round of seeds
+M("begin-session-keeps-open-session", "C09", "C09.begin",
+  ("storage/state.go", """func (s *State) BeginTxSession() {
+	s.txSession = s.cache.BeginSession()""", """func (s *State) BeginTxSession() {
+	if s.txSession != nil {
+		return
+	}
+	s.txSession = s.cache.BeginSession()"""))
+R("begin-session-local", ["C09", "C06"],
+  ("storage/state.go", """func (s *State) BeginTxSession() {
+	s.txSession = s.cache.BeginSession()""", """func (s *State) BeginTxSession() {
+	fresh := s.cache.BeginSession()
+	s.txSession = fresh"""))
+M("pending-rewards-scan-stops-at-zero-entry", "C12", "C12.iter",
+  (NDRW, """			addr := keys.Address{}
+			bytesText := key[len(prefix):]
+			err = addr.UnmarshalText(bytesText)
+			if err != nil {
+				logger.Error("failed to deserialize delegator address")
+				return true
+			}
+			return fn(addr, amt)""", """			if amt.IsZero() {
+				return true
+			}
+			addr := keys.Address{}
+			bytesText := key[len(prefix):]
+			err = addr.UnmarshalText(bytesText)
+			if err != nil {
+				logger.Error("failed to deserialize delegator address")
+				return true
+			}
+			return fn(addr, amt)"""))
+R("pending-rewards-scan-skips-zero-entry", ["C12"],
+  (NDRW, """			addr := keys.Address{}
+			bytesText := key[len(prefix):]
+			err = addr.UnmarshalText(bytesText)
+			if err != nil {
+				logger.Error("failed to deserialize delegator address")
+				return true
+			}
+			return fn(addr, amt)""", """			addr := keys.Address{}
+			bytesText := key[len(prefix):]
+			err = addr.UnmarshalText(bytesText)
+			if err != nil {
+				logger.Error("failed to deserialize delegator address")
+				return true
+			}
+			stop := fn(addr, amt)
+			return stop"""))
+M("last-active-only-signers", "C10", "C10.lastactive",
+  (VSET, """	for _, vote := range lastCommit.Votes {
+		addr := keys.Address(vote.Validator.Address)
+		vs.lastActive[string(addr)] = vote.Validator.Power""", """	for _, vote := range lastCommit.Votes {
+		if !vote.SignedLastBlock {
+			continue
+		}
+		addr := keys.Address(vote.Validator.Address)
+		vs.lastActive[string(addr)] = vote.Validator.Power"""))
+R("last-active-locals", ["C10"],
+  (VSET, """		addr := keys.Address(vote.Validator.Address)
+		vs.lastActive[string(addr)] = vote.Validator.Power""", """		member := vote.Validator
+		addr, power := keys.Address(member.Address), member.Power
+		vs.lastActive[string(addr)] = power"""))
+M("suspicious-record-kept-when-present", "C19", "C19.suspicious",
+  ("data/evidence/store.go", """	lvh := NewLastValidatorHistory(validatorAddress, status, height, createdAt)
+	err := es.UpdateSuspiciousValidator(lvh)
+	return lvh, err""", """	if old, err := es.GetSuspiciousValidator(validatorAddress, height, 0); err == nil && old != nil && old.IsFrozen() {
+		return old, nil
+	}
+	lvh := NewLastValidatorHistory(validatorAddress, status, height, createdAt)
+	err := es.UpdateSuspiciousValidator(lvh)
+	return lvh, err"""))
+R("suspicious-record-explicit-error-return", ["C19"],
+  ("data/evidence/store.go", """	lvh := NewLastValidatorHistory(validatorAddress, status, height, createdAt)
+	err := es.UpdateSuspiciousValidator(lvh)
+	return lvh, err""", """	lvh := NewLastValidatorHistory(validatorAddress, status, height, createdAt)
+	if err := es.UpdateSuspiciousValidator(lvh); err != nil {
+		return lvh, err
+	}
+	return lvh, nil"""))
+M("refund-amount-from-decoded-data", "C15", "C15.refund",
+  ("action/eth/check_finalty.go", """	req, err := ethereum.ParseRedeem(tracker.SignedETHTx, ethOpt.ContractABI)
+	oEthRefundCoin := c.NewCoinFromAmount(*balance.NewAmountFromBigInt(req.Amount))
+	if err != nil {
+		return errors.Wrap(action.ErrInvalidExtTx, err.Error())
+	}""", """	ethTx, err := ethereum.DecodeTransaction(tracker.SignedETHTx)
+	if err != nil {
+		return errors.Wrap(action.ErrInvalidExtTx, err.Error())
+	}
+	req, err := ethereum.ParseRedeem(ethTx.Data(), ethOpt.ContractABI)
+	if err != nil {
+		return errors.Wrap(action.ErrInvalidExtTx, err.Error())
+	}
+	oEthRefundCoin := c.NewCoinFromAmount(*balance.NewAmountFromBigInt(req.Amount))"""))
+R("refund-error-checked-first", ["C15", "C18"],
+  ("action/eth/check_finalty.go", """	req, err := ethereum.ParseRedeem(tracker.SignedETHTx, ethOpt.ContractABI)
+	oEthRefundCoin := c.NewCoinFromAmount(*balance.NewAmountFromBigInt(req.Amount))
+	if err != nil {
+		return errors.Wrap(action.ErrInvalidExtTx, err.Error())
+	}""", """	req, err := ethereum.ParseRedeem(tracker.SignedETHTx, ethOpt.ContractABI)
+	if err != nil {
+		return errors.Wrap(action.ErrInvalidExtTx, err.Error())
+	}
+	oEthRefundCoin := c.NewCoinFromAmount(*balance.NewAmountFromBigInt(req.Amount))"""))
+M("purchase-sale-branch-ignores-expiry", "C20", "C20.purchase",
+  ("action/ons/purchase.go", """	if (ctx.State.Version() <= domain.ExpireHeight) && domain.OnSaleFlag {""", """	if domain.OnSaleFlag {"""))
+R("purchase-sale-branch-expired-local", ["C20"],
+  ("action/ons/purchase.go", """	if (ctx.State.Version() <= domain.ExpireHeight) && domain.OnSaleFlag {""", """	live := ctx.State.Version() <= domain.ExpireHeight
+	if live && domain.OnSaleFlag {"""))
+M("clean-tracker-scans-committed-tree", "C19", "C19.clean",
+  ("data/evidence/allegation.go", """	sort.Strings(requestIdList)
+	countMap := make(map[string]bool)""", """	sort.Strings(requestIdList)
+	requestIdList = requestIdList[:0]
+	es.IterateRequests(func(ar *AllegationRequest) bool {
+		requestIdList = append(requestIdList, ar.ID)
+		return false
+	})
+	countMap := make(map[string]bool)"""))
